@@ -45,7 +45,7 @@ BIG = [0, 1, 3_000_000, 40_000_000]
 # small integer dtypes with cells near the top of their range: a sum of two cells leaves the dtype
 SMALL = {"i8": (np.int8, [0, 1, 100, 127]), "u8": (np.uint8, [0, 1, 200, 255]), "i16": (np.int16, [0, 1, 30000, 32767]),
          "u16": (np.uint16, [0, 1, 40000, 65535]), "i32": (np.int32, [0, 1, 2**30, 2**31 - 1]),
-         "u32": (np.uint32, [0, 1, 2**31, 2**32 - 1])}
+         "u32": (np.uint32, [0, 1, 2**31, 2**32 - 1]), "u64": (np.uint64, [0, 1, 2**53 + 1, 2**54 + 3])}
 
 
 def _entries(b, sc):
@@ -66,9 +66,9 @@ def _dtype(sc):
 
 def bounds(tier):
     if tier == "quick":
-        return {"entries": [0, 1, 2, 5], "scales": [1, 0.5, 1e-10, 1e-170, 1e150, "big", "i8", "u8", "i32"], "alphas": ALPHAS,
+        return {"entries": [0, 1, 2, 5], "scales": [1, 0.5, 1e-10, 1e-170, 1e150, "big", "i8", "u8", "i32", "u64"], "alphas": ALPHAS,
                 "leading_shapes": [list(s) for s in SHAPES], "big_entries": BIG}
-    return {"entries": [0, 1, 2, 3, 5, 10], "scales": [1, 0.5, 1e-3, 1e6, 1e-10, 1e-12, 1e-170, 1e-300, 1e150, "big", "big32", "i8", "u8", "i16", "u16", "i32", "u32"], "alphas": ALPHAS,
+    return {"entries": [0, 1, 2, 3, 5, 10], "scales": [1, 0.5, 1e-3, 1e6, 1e-10, 1e-12, 1e-170, 1e-300, 1e150, "big", "big32", "i8", "u8", "i16", "u16", "i32", "u32", "u64"], "alphas": ALPHAS,
             "leading_shapes": [list(s) for s in SHAPES], "big_entries": BIG}
 
 
@@ -225,7 +225,9 @@ def run(item, ctx, tier, seed):
                                  expected="float")
                         v = float(v)
                     obs[(api, nm)] = v
-                    _check_rate(ctx, c2, nm, v, d[nm], 1e-12 if nm in ("fdr", "for_", "error_rate") or not exact_int else 0.0)
+                    # (cells beyond 2^53 are rounded when they are converted for the division: two ulps there)
+                    _check_rate(ctx, c2, nm, v, d[nm], 1e-12 if nm in ("fdr", "for_", "error_rate") or not exact_int else
+                                (4.5e-16 if sc_name == "u64" else 0.0))
                 for al, orig in ALIASES.items():
                     ok, v = guarded(ctx, "alias-" + al, c2, get, al)
                     ctx.tick()
@@ -298,14 +300,21 @@ def run(item, ctx, tier, seed):
     per = {nm: np.array([np.asarray(getattr(metrics, nm)(m_), dtype=float) for m_ in allarr]) for nm in names}
     per_ci = {(nm, a): np.array([getattr(metrics, nm)(m_, alpha=a) for m_ in allarr])
               for nm in list(CIS) + list(CI_ALIASES) for a in b["alphas"]}
+    variants = []
     for shape in [tuple(s) for s in b["leading_shapes"]] + [(len(mats),)]:
         size = int(np.prod(shape))
         idx = np.arange(size) % len(mats) if size else np.zeros((0,), dtype=int)
         # take a spread of matrices rather than the first few
         idx = (idx * 37 + 11) % len(mats) if shape != (len(mats),) else idx
-        arr = allarr[idx].reshape(shape + (2, 2))
+        base_arr = allarr[idx].reshape(shape + (2, 2))
+        variants.append((shape, idx, "C", base_arr))
+        if len(shape) >= 2:
+            # the same stack in other memory layouts of its leading axes (zero-denominator cells included)
+            variants.append((shape, idx, "F", np.asfortranarray(base_arr)))
+            variants.append((shape, idx, "T", np.ascontiguousarray(np.moveaxis(base_arr, 0, 1)).swapaxes(0, 1)))
+    for shape, idx, layout, arr in variants:
         cm = ConfusionMatrix(matrix=arr, binary=True)
-        case = {"kind": "stacked", "scale": sc_name, "leading_shape": list(shape)}
+        case = {"kind": "stacked", "scale": sc_name, "leading_shape": list(shape), "layout": layout}
         ctx.state()
         for api in ("metrics", "cm"):
             for nm in names:
@@ -319,7 +328,11 @@ def run(item, ctx, tier, seed):
                     ctx.fail("stacked-shape", dict(case, api=api, metric=nm), observed=list(v.shape), expected=list(shape))
                     continue
                 want = per[nm][idx].reshape(shape)
-                if not np.array_equal(v, want, equal_nan=True):
+                # (another memory layout changes the order in which NumPy adds the four cells: equal to two ulps there,
+                # bit for bit in C order; the NaN locus is exact in both)
+                same = (np.array_equal(v, want, equal_nan=True) if layout == "C" else
+                        (np.array_equal(np.isnan(v), np.isnan(want)) and np.allclose(v, want, rtol=4.5e-16, atol=0, equal_nan=True)))
+                if not same:
                     ctx.fail("stacked-equals-per-matrix", dict(case, api=api, metric=nm), observed=v, expected=want)
             for (nm, a), pc in per_ci.items():
                 f = ((lambda: getattr(metrics, nm)(arr, alpha=a)) if api == "metrics"
